@@ -37,14 +37,33 @@ DECIDING = ['retrieved == reference (FIFO)', 'pending == produced - retrieved',
             'get_message None iff none pending', 'final sequence == reference',
             'parserqueue sequence == reference']
 TIMEOUT = {'quick': 300, 'thorough': 2400}
+import array as _array
+import collections as _collections
+
 CONT = {
     'list': list, 'tuple': tuple, 'bytes': bytes, 'bytearray': bytearray,
     'gen': lambda c: (x for x in c),
+    # sequences of the same integers whose items are wider than a byte in memory, views, other iterables
+    'array-H': lambda c: _array.array('H', c), 'array-i': lambda c: _array.array('i', c), 'array-q': lambda c: _array.array('q', c),
+    'array-B': lambda c: _array.array('B', c), 'memoryview': lambda c: memoryview(bytes(c)),
+    'memoryview-H': lambda c: memoryview(_array.array('H', c)), 'deque': _collections.deque, 'map': lambda c: map(int, c),
 }
 
 
 def nshards(tier):
     return 16
+
+
+def _guarded(name):
+    def wrapper(ctx, *args, **kw):
+        try:
+            return globals()['_' + name](ctx, *args, **kw)
+        except Exception as exc:          # escaped from library code outside the case's own try block
+            ctx.fail('no exception', f'{name}:escaped:{type(exc).__name__}', {'kind': 'escaped', 'from': name, 'args': repr(args)[:300]},
+                     f'{type(exc).__name__}: {exc}')
+            return False
+    wrapper.__name__ = name
+    return wrapper
 
 
 def reference(data):
@@ -91,7 +110,7 @@ def make_stream(rng, npieces):
     return out
 
 
-def run_case(ctx, data, cuts, conts, rseed, use_ctor=False):
+def _run_case(ctx, data, cuts, conts, rseed, use_ctor=False):
     """Feed data cut at `cuts` using container names `conts` (cycled), with a
     retrieval program seeded by rseed between feeds."""
     case = lambda: {'kind': 'case', 'bytes': bytes(data), 'cuts': list(cuts),  # noqa: E731
@@ -211,7 +230,7 @@ def run_case(ctx, data, cuts, conts, rseed, use_ctor=False):
     return inside
 
 
-def run_tokenizer_case(ctx, data, cuts, rseed):
+def _run_tokenizer_case(ctx, data, cuts, rseed):
     """The documented mido.tokenizer.Tokenizer used directly: chunked feeding with tokens taken out by
     len() / next() on kept, renewed and abandoned iterators / list() / for-break between the calls."""
     from mido.tokenizer import Tokenizer
@@ -271,7 +290,7 @@ def run_tokenizer_case(ctx, data, cuts, rseed):
         ctx.fail('no exception', f'tokenizer:{type(exc).__name__}', case, f'{type(exc).__name__}: {exc}')
 
 
-def aborted_feed_case(ctx, data, at, how, other):
+def _aborted_feed_case(ctx, data, at, how, other):
     """A feed() call that fails half way - the data source raises, or an item is not a MIDI byte - and
     the calls that follow it: nothing already consumed is lost or handed to another parser, and the
     parser goes on where the source stopped."""
@@ -317,7 +336,7 @@ def aborted_feed_case(ctx, data, at, how, other):
         ctx.fail('no exception', f'aborted-feed:{how}:{type(exc).__name__}', case, f'{type(exc).__name__}: {exc}')
 
 
-def checkpoint_case(ctx, data, cut, how):
+def _checkpoint_case(ctx, data, cut, how):
     """A parser is duplicated mid-stream (copy.deepcopy / pickle); both go on independently."""
     import copy
     import pickle
@@ -340,7 +359,7 @@ def checkpoint_case(ctx, data, cut, how):
         ctx.fail('no exception', f'checkpoint:{how}:{type(exc).__name__}', case, f'{type(exc).__name__}: {exc}')
 
 
-def run_queue_case(ctx, data, cuts, rseed):
+def _run_queue_case(ctx, data, cuts, rseed):
     case = lambda: {'kind': 'queue', 'bytes': bytes(data), 'cuts': list(cuts), 'rseed': rseed}  # noqa: E731
     produced, ref = reference(data)
     rng = random.Random(rseed)
@@ -387,6 +406,13 @@ HAND = [
     [0xF2, 1, 0xF2, 1, 2, 0xF1, 0xF3, 4],
     [0xB0, 1, 2, 3, 4, 0xB0, 5, 6],
 ]
+
+
+run_case = _guarded('run_case')
+run_queue_case = _guarded('run_queue_case')
+run_tokenizer_case = _guarded('run_tokenizer_case')
+aborted_feed_case = _guarded('aborted_feed_case')
+checkpoint_case = _guarded('checkpoint_case')
 
 
 def all_cut_sets(n):
